@@ -50,6 +50,8 @@ FUNCTIONS = [
     ('filter_process', 'dataflows.processors.filter_rows', ['process_resource']),
     ('deduper', 'dataflows.processors.deduplicate', ['deduper']),
     ('unpivot_rows', 'dataflows.processors.unpivot', ['unpivot_rows']),
+    # select_fields: which schema fields are selected, in which order (the loops over the patterns and the remaining names)
+    ('select_schema_loop', 'dataflows.processors.select_fields', ['select_fields', 'func', '@for:0', '@if:0', '@for:0']),
     # delete_fields: which schema fields stay (the package phase's loop over the fields of a selected resource)
     ('delete_schema_loop', 'dataflows.processors.delete_fields', ['delete_fields', 'func', '@for:0', '@if:0', '@for:0']),
     ('concatenator', 'dataflows.processors.concatenate', ['concatenator']),
@@ -323,6 +325,18 @@ class Tr:
                 return '(.yield %s)' % (self.e(v.value) if v.value is not None else '(.const .none)')
             if isinstance(v, ast.YieldFrom):
                 return '(.yieldFrom %s)' % self.e(v.value)
+            # x.append(y.pop(k)): the popped value is appended, then the key is gone from y
+            if isinstance(v, ast.Call) and isinstance(v.func, ast.Attribute) and v.func.attr == 'append' and self.name_of(v.func.value) is not None \
+                    and len(v.args) == 1 and isinstance(v.args[0], ast.Call) and isinstance(v.args[0].func, ast.Attribute) \
+                    and v.args[0].func.attr == 'pop' and isinstance(v.args[0].func.value, ast.Name) and len(v.args[0].args) == 1 and not v.args[0].keywords:
+                x, y, k = self.name_of(v.func.value), v.args[0].func.value.id, self.e(v.args[0].args[0])
+                return '(.seq (.mut %s "append" %s) (.mut %s "delitem" %s))' % (
+                    lean_str(x), self.args([self.call('getitem', ['(.var %s)' % lean_str(y), k])]), lean_str(y), self.args([k]))
+            # d[k].add(v): the member of d under k is replaced by itself with v added
+            if isinstance(v, ast.Call) and isinstance(v.func, ast.Attribute) and v.func.attr in MUTATORS and isinstance(v.func.value, ast.Subscript) \
+                    and isinstance(v.func.value.value, ast.Name) and not isinstance(v.func.value.slice, ast.Slice) and not v.keywords:
+                return '(.mutAt %s %s %s %s)' % (lean_str(v.func.value.value.id), self.e(v.func.value.slice), lean_str(v.func.attr),
+                                                 self.args([self.e(a) for a in v.args]))
             if isinstance(v, ast.Call) and isinstance(v.func, ast.Attribute) and v.func.attr in MUTATORS \
                     and self.name_of(v.func.value) is not None and not v.keywords:
                 return '(.mut %s %s %s)' % (lean_str(self.name_of(v.func.value)), lean_str(v.func.attr),
